@@ -113,6 +113,9 @@ class WebBrowser(Application, discriminator="web-browser"):
 
         # get the IP address of the domain name via DNS
         dns_client: DNSClient = self.software_manager.software.get("dns-client")
+        if dns_client is None:
+            self.sys_log.warning(f"{self.name}: Unable to resolve URL {url} as no DNS client is installed")
+            return False
         domain_exists = dns_client.check_domain_exists(target_domain=parsed_url.hostname)
 
         # if domain does not exist, the request fails
